@@ -797,7 +797,7 @@ def _stream_corr(ctx):
     lines.append("F ch7.ptdps " + seq_text([(rng.bytes_(3), False), (rng.bytes_(2050), True), (b"", False)]))
     lines.append("F ch7.encap 0 1 " + seq_text([(b"\x01", False)]))          # never terminates: both sides report fuel
     lines.append("F ch7.encap 0 1 []")
-    seqs = _c10_sequences(ctx, ctx.scale(700, 40000))
+    seqs = _c10_sequences(ctx, ctx.scale(700, 8000))
     for (L, mode, seq) in seqs:
         sid = rng.choice([1, 1, 0, 15])
         lines.append("F ch7.encap %d %d %s" % (L, sid, seq_text(seq)))
@@ -865,7 +865,7 @@ def _stream_oracles(ctx, hints):
     fails = []
     n = 0
     seen = set()
-    budget = ctx.scale(900, 60000) * (3 if getattr(ctx, "search_mode", False) else 1)
+    budget = ctx.scale(900, 20000) * (3 if getattr(ctx, "search_mode", False) else 1)
     for (L, mode, seq) in _c10_sequences(ctx, budget):
         args = {"L": L, "sid": 1, "pkts": [[b.hex(), l] for b, l in seq]}
         overflow = simulate(seq, L)[3]
